@@ -250,7 +250,7 @@ pub fn c09_source_both(source: &str) -> Result<bool, String> {
 
 pub fn run_c09(tier: &str, seed: u64) -> campaign::CampaignResult {
     let start = Instant::now();
-    let np = env_usize("EQV_NPROG", if tier == "thorough" { 1500 } else { 40 });
+    let np = env_usize("EQV_NPROG", if tier == "thorough" { 400 } else { 40 });
     let known = KnownFindings::load();
     let mut ev = Evidence::new("C09", tier, seed, "exploration");
     let profiles: Vec<String> = vec!["wide".into(), "wide".into(), "free".into(), "with_enums".into()];
@@ -270,7 +270,7 @@ pub fn run_c09(tier: &str, seed: u64) -> campaign::CampaignResult {
     // modules derived from the full surface grammar (models with member types / functions / rules,
     // morphism terms, enums, named arguments): no signature is known to the harness, so the module-mode
     // output is compiled as a library and the component build must succeed
-    let ng = env_usize("EQV_NGRAM", if tier == "thorough" { 3000 } else { 80 });
+    let ng = env_usize("EQV_NGRAM", if tier == "thorough" { 800 } else { 60 });
     let gram_sources: Vec<String> = pt::draw_tapes(seed ^ 0x6772, ng, 500).into_iter().map(|tape| crate::gram::gen_module(&tape, 0)).collect();
     let gram_results: Vec<Result<bool, String>> = gram_sources.par_iter().map(|src| c09_source_both(src)).collect();
     for (src, res) in gram_sources.iter().zip(gram_results.iter()) {
@@ -359,7 +359,7 @@ pub fn run_c09(tier: &str, seed: u64) -> campaign::CampaignResult {
     // identifier (digit after a letter, mixed case, doubled/trailing underscore, prime, keyword-like).
     // Most of these are rejected by the casing rules today - then nothing is claimed; whatever IS accepted
     // (now or after a change of those rules) must still yield Rust that compiles.
-    let ns = env_usize("EQV_NSTRESS", if tier == "thorough" { 2000 } else { 60 });
+    let ns = env_usize("EQV_NSTRESS", if tier == "thorough" { 800 } else { 60 });
     const LOWER: [&str; 14] = ["trans2", "p1", "q2r", "le2x", "a1_b2", "x_", "a__b", "aB", "r_1_2", "step_2b", "fn_x", "type_", "self_", "x'"];
     const UPPER: [&str; 7] = ["A1", "Ab_c", "ABC", "T_x", "B2b", "Aa'", "Self_"];
     let stress_base = draw_programs(seed ^ 0x57e5, &vec!["free".to_string(), "with_enums".to_string()], ns);
@@ -886,7 +886,7 @@ pub fn c19_text_only(source: &str) -> Result<Option<usize>, String> {
 
 pub fn run_c19(tier: &str, seed: u64) -> campaign::CampaignResult {
     let start = Instant::now();
-    let np = env_usize("EQV_NPROG", if tier == "thorough" { 600 } else { 48 });
+    let np = env_usize("EQV_NPROG", if tier == "thorough" { 400 } else { 48 });
     let nh = env_usize("EQV_NHIST", if tier == "thorough" { 300 } else { 100 });
     let known = KnownFindings::load();
     let mut ev = Evidence::new("C19", tier, seed, "exploration");
@@ -1008,8 +1008,8 @@ pub fn c20_one(pc: &ProgramCase, seed: u64, n_hist: usize, prebuilt: Option<Resu
 
 pub fn run_c20(tier: &str, seed: u64) -> campaign::CampaignResult {
     let start = Instant::now();
-    let np = env_usize("EQV_NPROG", if tier == "thorough" { 1000 } else { 64 });
-    let nh = env_usize("EQV_NHIST", if tier == "thorough" { 300 } else { 150 });
+    let np = env_usize("EQV_NPROG", if tier == "thorough" { 600 } else { 64 });
+    let nh = env_usize("EQV_NHIST", if tier == "thorough" { 200 } else { 150 });
     let known = KnownFindings::load();
     let mut ev = Evidence::new("C20", tier, seed, "exploration");
     let profiles: Vec<String> = vec!["stratified".into(), "free".into(), "with_enums".into(), "surjective".into()];
